@@ -19,6 +19,16 @@ Driver glue for C55.  One case per line:
           steps over `a` (attr) `A` (attr + call) `i` (index);  conv `-` `r` `s` `a` `x`;
           spec `P<text>` | `N<text>^<sf>^<text>` | `D<sf>^<sf>`;  sf = `<key>+<steps>+<conv>+<text>`
 
+Legacy entry point (`twisted.python.log.textFromEventDict`):
+
+  `C55 leg M=<message> I=<0|1> F=<lformat> X=<oval> W=<oval> E=<extras> P=<tape>`
+
+  message  vals joined by `;` (or `-`): the `message` tuple;  I = isError;  X = failure;  W = why
+  lformat  `_` | `s<psegs>` | `b<psegs>` | `on` | `oh`;  psegs joined by `|`:
+           `l<text>` | `k<name>~<width>~<pconv>` | `p<width>~<pconv>` | `!` (trailing lone `%`);
+           pconv `s` `r` `a` `d` (number) `x` (unsupported character)
+  extras   names other than message/isError/format/failure/why
+
 Answer: `text:<text> @<trace>` | `none @<trace>` | `!raised <Class> @<trace>`; trace = one letter per
 oracle call in order (`r` repr `s` str `f` format `g` getattr `i` getitem `c` call `b` getTraceback `t` formatTime).
 -/
@@ -202,8 +212,72 @@ def nodup (l : List String) : Bool :=
   | [] => true
   | x :: xs => !xs.contains x && nodup xs
 
+/-! ### legacy entry point -/
+open Twisted.Log.Format.Legacy in
+def decPConv (s : String) : Option PConv :=
+  match s with
+  | "s" => some .s | "r" => some .r | "a" => some .a | "d" => some .num | "x" => some .bad
+  | _ => none
+
+def legacyStructural : List String := ["message", "isError", "format"]
+
+open Twisted.Log.Format.Legacy in
+def decPSeg (s : String) : Option PSeg :=
+  match s.toList with
+  | 'l' :: t => (decText (String.ofList t)).map PSeg.lit
+  | ['!'] => some .incomplete
+  | 'k' :: r =>
+    match (String.ofList r).splitOn "~" with
+    | [k, w, c] =>
+      if okName k && !legacyStructural.contains k then do pure (.keyed k (← w.toNat?) (← decPConv c)) else none
+    | _ => none
+  | 'p' :: r =>
+    match (String.ofList r).splitOn "~" with
+    | [w, c] => do pure (.pos (← w.toNat?) (← decPConv c))
+    | _ => none
+  | _ => none
+
+open Twisted.Log.Format.Legacy in
+def decPSegs (s : String) : Option (List PSeg) :=
+  if s = "" then some [] else (s.splitOn "|").mapM decPSeg
+
+open Twisted.Log.Format.Legacy in
+def decLFormat (s : String) : Option LFormat :=
+  match s.toList with
+  | ['_'] => some .absent
+  | 's' :: r => (decPSegs (String.ofList r)).map LFormat.str
+  | 'b' :: r => (decPSegs (String.ofList r)).map LFormat.bytes
+  | ['o', 'n'] => some (.other .none)
+  | ['o', 'h'] => some (.other .hostile)
+  | _ => none
+
+def decLegacyExtra (s : String) : Option (String × Val) :=
+  match s.splitOn "=" with
+  | [k, v] =>
+    if okName k && !(legacyStructural ++ ["failure", "why"]).contains k then (decVal v).map (k, ·) else none
+  | _ => none
+
+def handleLegacy (args : List String) : String :=
+  match args with
+  | [m, i, f, x, w, e, p] =>
+    let parsed : Option (Legacy.Event × List Outcome) := do
+      let m ← (field? "M=" m).bind (decList ";" decVal)
+      let i ← (field? "I=" i).bind fun s => if s = "0" then some false else if s = "1" then some true else none
+      let f ← (field? "F=" f).bind decLFormat
+      let x ← (field? "X=" x).bind decOVal
+      let w ← (field? "W=" w).bind decOVal
+      let e ← (field? "E=" e).bind (decList ";" decLegacyExtra)
+      let p ← (field? "P=" p).bind (decList ";" decOutcome)
+      if !nodup (e.map (·.1)) then none
+      pure (⟨m, i, f, x, w, e⟩, p)
+    match parsed with
+    | none => "bad-op"
+    | some (ev, tape) => showOpt (Legacy.textFromEventDict ev ⟨tape, []⟩)
+  | _ => "bad-op"
+
 def handle (args : List String) : String :=
   match args with
+  | "leg" :: rest => handleLegacy rest
   | entry :: flags :: fn :: f :: t :: s :: l :: n :: x :: e :: d :: p :: rest =>
     let parsed : Option (Flags × TimeFn × Event × List Outcome) := do
       let flags ← decFlags flags
